@@ -88,6 +88,25 @@ partial def go (mode : String) (t : Tree Env It) (acc : List String) : List Stri
         | none, some bd => s!"n:MODEL-DIFFERS-FROM-SPEC:none:{bd}"
       go mode t' (s :: acc) r
     | _, _ => ("bad-op" :: acc).reverse
+  | "M" :: id :: x :: y :: r =>
+    -- nearest OTHER item: the query item is the stored item `id`, the supplied metric puts an item far from itself
+    match id.toInt?, x.toInt?, y.toInt? with
+    | some qid, some x, some y =>
+      let t' := t.build cfg
+      let fuel := 4 * (t'.pending.length + 2) * (t'.pending.length + 2) + 64
+      let selfD : Int := 1000000000000000000
+      let dist := fun (i : It) => if i.id == qid then selfD else sqDist x y i
+      let res := nearestRoot (fun (a b : Int) => decide (a ≤ b)) (boxSqDist x y) dist fuel t'.root
+      let brute := (t'.live.map (fun e => dist e.item)).foldl
+        (fun (m : Option Int) d => match m with | none => some d | some m => some (min m d)) none
+      let s := match res, brute with
+        | none, none => "m:none"
+        | some (d, _), some bd =>
+          if d != bd then s!"m:MODEL-DIFFERS-FROM-SPEC:{d}:{bd}" else if d == selfD then "m:self:1" else s!"m:{d}:1"
+        | some (d, _), none => s!"m:MODEL-DIFFERS-FROM-SPEC:{d}:none"
+        | none, some bd => s!"m:MODEL-DIFFERS-FROM-SPEC:none:{bd}"
+      go mode t' (s :: acc) r
+    | _, _, _ => ("bad-op" :: acc).reverse
   | _ => ("bad-op" :: acc).reverse
 
 def history (line : String) : String :=
